@@ -38,6 +38,7 @@ META = {
     "run (unrelated extra arrival in the boundary instant) and by the partition take_last + skip_last = input; exhaustive within N",
     "note": "trusted: CPython, the harness in /verif/vf (vt.py, timeref.py), the reference simulators, VirtualTimeScheduler's queue discipline (C28/C29)",
 }
+META["text"] += "; thread part: timeout (with and without fallback), timeout_with_mapper, take_with_time, skip_with_time on TimeoutScheduler/EventLoopScheduler (controlled clock) with the source on its own thread and a notification in the instant a timer is due: a timeout fires only a full due time after the last forwarded element"
 RULE = (
     "sim cases: all (instance, timeline) pairs, instance = operator x boundary/due time x parameter form x clock kind (x fallback / timeout "
     "observables); lastpair cases: all (duration, timeline) pairs, each running take_last and skip_last on the timeline and on every variant with "
